@@ -209,6 +209,11 @@ fn pou_vars_and_body(rng: &mut Rng, n: &Names, is_function: bool, own: &str) -> 
     }
     vars.push_str("    cnt : INT;\n");
     locals.push("cnt".into());
+    if !is_function && !n.no_comments && rng.chance(1, 6) {
+        // a string literal that looks like it holds a comment (it contains `*)`, so not in worlds
+        // that plant an unterminated comment)
+        vars.push_str("    note : STRING := 'x (* y *) z';\n");
+    }
     let mut inst: Option<(String, bool)> = None;
     if !is_function && !n.fbs.is_empty() && rng.chance(2, 3) {
         let (f, has_in) = rng.pick(&n.fbs).clone();
@@ -238,7 +243,7 @@ fn pou_vars_and_body(rng: &mut Rng, n: &Names, is_function: bool, own: &str) -> 
                 body.push_str(&format!("  {a} := {f}({b}, 2);\n"));
             }
         }
-        9 => body.push_str(&format!("  {a} := {b} - 1;\n")),
+        9 => body.push_str(&format!("  {a} := INT#5 + {b} + 16#1F + 2#1010;\n")),
         4 => body.push_str(&format!("  {a} := ({b} MOD 3) + {};\n", rng.below(9))),
         5 => body.push_str(&format!("  IF ({a} > 3) AND NOT ({b} > 2) OR ({a} = 1) XOR ({b} = 2) THEN\n    {a} := 0;\n  END_IF;\n")),
         3 => body.push_str(&format!("  IF {a} > 3 THEN\n    {b} := 0;\n  END_IF {b} := {b} + 1;{}\n", if n.no_comments { "" } else { " (* same line *)" })),
@@ -650,6 +655,15 @@ pub fn gen_faulty(rng: &mut Rng, size: usize, kind: &str) -> World {
     }
     while decls.len() < size {
         decls.push(gen_one(rng, &mut n));
+    }
+    if kind == "open_comment" {
+        // safety net for the rule above: no other declaration may contain a comment terminator
+        for (i, d) in decls.iter_mut().enumerate() {
+            if !involved.contains(&i) && d.text.contains("*)") {
+                let name = format!("Plain{i}");
+                *d = decl("fb", &name, format!("FUNCTION_BLOCK {name}\n  VAR\n    cnt : INT;\n  END_VAR\n  cnt := 1;\nEND_FUNCTION_BLOCK\n"));
+            }
+        }
     }
     World { decls, fault: Some(FaultInfo { kind: kind.to_string(), involved, standalone: is_standalone(kind) }) }
 }
